@@ -276,13 +276,20 @@ CLAIMS = {
              "and inductively around the refill loop; every memcpy/memmove, buffer subscript and hand-off to the "
              "virtual source/sink carries bounds obligations against the N-byte buffer and the caller's len bytes; a "
              "progress obligation shows every refill can receive at least one byte (requests > N are refused first). "
-             "All obligations are discharged for all request sizes and all source chunkings. Structural rules add "
-             "flush-before-overwrite, complete pass-through and the read-window discipline. The byte-stream equality "
-             "itself is not decided.",
-        note="trusted base: clang front end, extractor, cv/lin.py + cv/bounds.py; contract assumed for the virtual "
-             "source (writes/returns at most the requested length) and sink; caller supplies len bytes",
-        also=("engine A (cfg.py)",),
-        technique="static analysis: relational (linear inequality) abstract interpretation with inductive class invariants"),
+             "All obligations are discharged for all request sizes and all source chunkings. The byte-stream "
+             "equality itself is proved as a refinement with ghost counters and content invariants over the write log: "
+             "read side - fetched == consumed + window and buf[ start + k] == stream[ consumed + k] for every k of "
+             "the window, assumed at entry, proved at every exit and inductively around the refill loop, and at the "
+             "exit of get() exactly len bytes were delivered with data[ i] == stream[ consumed + i]; write side - "
+             "sunk == appended - buffered, buf[ k] == appended[ appended - buffered + k], and every writeData( p, n) "
+             "hands over exactly appended[ sunk .. sunk + n). By induction over the calls this is in-order, "
+             "exactly-once delivery for every sequence of requests and every chunking. Termination when the source "
+             "returns 0 is not decided.",
+        note="trusted base: clang front end, extractor, cv/lin.py + cv/bounds.py (write log, provenance resolution); "
+             "contract assumed for the virtual source (delivers the next bytes of its stream, at most the requested "
+             "length) and sink; caller supplies len bytes; source/sink do not alias the buffer",
+        technique="static analysis: relational abstract interpretation with inductive class invariants incl. content "
+                  "(provenance) invariants - a refinement proof against an abstract byte stream"),
     "C20": dict(
         level="other", engine="engine E (effects.py)",
         text="Static lockset/dominance and initialisation-order analysis of every Singleton<T>::instance/reset and "
